@@ -90,6 +90,10 @@ c.finish(
         "read by 6 goroutines at once and every result is compared with the sequential one, in the plain and the -race "
         "build (coverage.concurrent_reads) - a TEST over the Go scheduler's interleavings; RC4 /Length 48..120 needs the "
         "proposed hook VerifC18RekeyRC4",
+        "two windows without a scheduling point are exercised under real preemption (coverage.stress, plain and -race "
+        "build; TESTS): first lookups of 30 fresh predefined CMap names by 16 goroutines behind a barrier (pointer identity, "
+        "IsPredefined), and 30000 (race: 8000) rounds of 8 goroutines calling DecodeExclusive on a fresh Extractor with the "
+        "garbage collector kept busy (the decode function must run once)",
         "error values as package-level state: a deterministic oracle (coverage.errors) runs a catalogue of 18 failing calls "
         "on Reader A alone, on Reader B alone and interleaved and compares err.Error() text, IsMalformed / errors.Is, the "
         "dynamic type chain and MalformedFileError.Loc with the run-alone result; the same calls run concurrently from "
